@@ -1043,6 +1043,9 @@ func c10NothingDropped(c *Ctx, r *Report, clause string) {
 		{"Parser", "Walker", "BuildLALR1", "", "InsertNewRules", 2, []string{"($ok)"}, "rule 0 and every alternative of the file are handed to the grammar"},
 		{"Parser", "RuleVistor", "Process", "rules", "", 1, []string{"($ok)"}, "every alternative the parser read becomes a rule"},
 		{"Parser", "RuleVistor", "Process", "RighPart", "", 1, []string{"($ok)", "*.ElemType "}, "every symbol element of an alternative becomes a right-hand symbol"},
+		{"Parser", "parser", "parseTokendef", "IdentifyList", "", 2, []string{"*.current.Kind "}, "every name and every literal of a %token line is recorded with the line's value tag, declared before or not"},
+		{"Parser", "parser", "parseTypeList", "TypedefList", "", 1, []string{"*.current.Kind "}, "every name of a %type line is recorded with the line's value tag"},
+		{"Parser", "parser", "parsePrecList", "res", "", 1, []string{"*.current.Kind "}, "every symbol of a precedence line is recorded with the line's level"},
 	}
 	for _, s := range sites {
 		f := c.need(r, clause, s.dir, s.recv, s.fn)
@@ -1062,11 +1065,22 @@ func c10NothingDropped(c *Ctx, r *Report, clause string) {
 				if s.field == "" || len(x.Lhs) != 1 || len(x.Rhs) != 1 {
 					return true
 				}
-				fv := fieldVar(info, x.Lhs[0])
+				var fv types.Object
+				if v := fieldVar(info, x.Lhs[0]); v != nil {
+					fv = v
+				} else if o, isVar := identObj(info, x.Lhs[0]).(*types.Var); isVar && o.Parent() != o.Pkg().Scope() {
+					fv = o // a local list that the function returns
+				}
 				if fv == nil || fv.Name() != s.field {
 					return true
 				}
-				if call, ok := unparen(x.Rhs[0]).(*ast.CallExpr); ok && builtinName(info, call) == "append" && len(call.Args) >= 2 && fieldVar(info, call.Args[0]) == fv {
+				same := func(e ast.Expr) bool {
+					if v := fieldVar(info, e); v != nil {
+						return v == fv
+					}
+					return identObj(info, e) == fv
+				}
+				if call, ok := unparen(x.Rhs[0]).(*ast.CallExpr); ok && builtinName(info, call) == "append" && len(call.Args) >= 2 && same(call.Args[0]) {
 					targets = append(targets, x)
 				}
 			case *ast.ExprStmt:
@@ -1145,5 +1159,22 @@ func c10NothingDropped(c *Ctx, r *Report, clause string) {
 		r.Check(len(bad) == 0, clause, "R2 COVERAGE", key, c.pos(targets[0].Pos()),
 			fmt.Sprintf("%s: %d site(s), guarded by nothing that depends on the element", s.what, len(targets)),
 			"an element of the grammar file can be dropped on its way into the grammar — rule i of the grammar is then no longer the i-th alternative of the file, whose action and precedence are looked up by position: "+strings.Join(dedupStrings(bad), "; "))
+	}
+}
+
+// dumpPaths: the enumerated paths of a function (conditions, effects, result) — a development aid.
+func dumpPaths(c *Ctx, want string) {
+	for _, f := range c.AllFuncs() {
+		if !strings.HasSuffix(f.Name, want) {
+			continue
+		}
+		paths, err := newPathEnum(f.Pkg.TypesInfo).Enumerate(f.Decl.Body.List)
+		fmt.Println("==", f.Name, len(paths), "paths", err)
+		for _, p := range paths {
+			fmt.Println("  ", p.Kind, "if", p.CondString())
+			for _, e := range p.Effects {
+				fmt.Println("      ", e.Kind, e.String())
+			}
+		}
 	}
 }
